@@ -290,6 +290,45 @@ func runCase(ps profileSpec, s *session.Session, its []item, seq []int) {
 	r.Distinct(explore.Hash(ps.name, fmt.Sprint(seq)))
 }
 
+// startupSweep: the replies to the start-up queries establish exactly the capabilities they report.
+func startupSweep(idx, n int) {
+	k := 0
+	for caps := refterm.Cap(0); caps < 1<<refterm.NumGatingCaps; caps++ {
+		for _, absent := range []int{0, 3, 4} {
+			k++
+			if k%n != idx {
+				continue
+			}
+			prof := refterm.DefaultProfile(caps|refterm.CapOSC4|refterm.CapSizeReports, refterm.VersionOther)
+			prof.AbsentModeReply = absent
+			s, err := session.Open(prof, 10, 10, vaxis.Options{})
+			if err != nil {
+				r.Fault("open: %v", err)
+			}
+			got := s.Vx.VerifCaps()
+			want := map[string]bool{
+				"synchronizedUpdate": prof.Has(refterm.CapSync), "unicodeCore": prof.Has(refterm.CapUnicodeCore), "colorThemeUpdates": prof.Has(refterm.CapColorScheme),
+				"rgb": prof.Has(refterm.CapRGB), "kittyKeyboard": prof.Has(refterm.CapKittyKB), "styledUnderlines": prof.Has(refterm.CapStyledUL), "sixels": prof.Has(refterm.CapSixelAny),
+				"osc176": prof.Has(refterm.CapOSC176), "explicitWidth": prof.Has(refterm.CapExplicitWidth), "osc4": true, "osc10": false, "osc11": false, "kittyGraphics": false,
+				"reportSizeChars": true, "reportSizePixels": true,
+			}
+			r.Count("startups", 1)
+			ok := true
+			for _, name := range []string{"synchronizedUpdate", "unicodeCore", "colorThemeUpdates", "rgb", "kittyKeyboard", "styledUnderlines", "sixels", "osc176", "explicitWidth", "osc4", "osc10", "osc11", "kittyGraphics", "reportSizeChars", "reportSizePixels"} {
+				if got[name] != want[name] {
+					ok = false
+					r.Violation("C03|startup-reply|"+name, k, detail{Profile: prof.String(), Why: fmt.Sprintf("after start-up the capability %s is %v, the terminal's replies report %v", name, got[name], want[name])})
+					break
+				}
+			}
+			s.Vx.Close()
+			if ok {
+				r.Distinct(explore.Hash("startup", fmt.Sprint(caps, absent)))
+			}
+		}
+	}
+}
+
 func main() {
 	r = explore.Start("C03")
 	its := items()
@@ -298,7 +337,10 @@ func main() {
 	}
 	if idx, n, arg, ok := r.Worker(); ok {
 		r.Watchdog(30 * time.Second)
-		_ = arg
+		if arg == "startup" {
+			startupSweep(idx, n)
+			r.WorkerDone()
+		}
 		skip := r.Skip()
 		var danger []int
 		for i, it := range its {
@@ -389,10 +431,11 @@ func main() {
 		}
 		r.Violation("C03|crash|"+site, 0, detail{Items: []string{desc}, Why: "the process died: " + firstLine(tail)})
 	})
-	n := r.Get("cases")
+	r.Spawn(16, "startup", 0)
+	n := r.Get("cases") + r.Get("startups")
 	r.Finish(explore.Coverage{
 		States: -1, Transitions: n, Traces: n, Evaluations: n,
-		Rule:       fmt.Sprintf("every sequence of 1 and 2 items from an alphabet of %d terminal reports (legacy/kitty keys, SGR mouse with every modifier, focus, paste brackets, every reply Vaxis parses, and %d truncated/malformed variants), and every sequence of 3 (thorough: 4) items from the wedge-prone subset, injected after start-up through a fake console under 3 capability profiles plus one with an event queue of 2 and a consumer that lets the producers run until they block, each followed by a sentinel key; the user-input events read from Events() must be exactly those of the user-input reports, in order, with pasted keys marked; replies produce no user-input event; the sentinel must arrive (virtual 10 ms deadlines are fired whenever the reader is idle); a dying worker is turned into a crash violation and the shard resumes. distinct = sequences that passed", len(its), countGarbage(its)),
+		Rule:       fmt.Sprintf("every sequence of 1 and 2 items from an alphabet of %d terminal reports (legacy/kitty keys, SGR mouse with every modifier, focus, paste brackets, every reply Vaxis parses, and %d truncated/malformed variants), and every sequence of 3 (thorough: 4) items from the wedge-prone subset, injected after start-up through a fake console under 3 capability profiles plus one with an event queue of 2 and a consumer that lets the producers run until they block, each followed by a sentinel key; the user-input events read from Events() must be exactly those of the user-input reports, in order, with pasted keys marked; replies produce no user-input event; the sentinel must arrive (virtual 10 ms deadlines are fired whenever the reader is idle); a dying worker is turned into a crash violation and the shard resumes. Start-up replies: every subset of the 12 gating capabilities x the DECRPM status (0, 3 or 4) a terminal gives for a mode it does not implement: the capability set New ends with must be exactly the one the replies report. distinct = sequences that passed", len(its), countGarbage(its)),
 		Exhaustive: true,
 		Bounds:     map[string]any{"alphabet": len(its), "deep_depth": r.Pick(3, 4)},
 		Assumptions: []string{"internal marker events of unexported types that a late reply posts to the application's queue are not user-input events",
